@@ -75,6 +75,10 @@ impl BlsSerde for Bls12381G1Impl {
     fn deserialize_scalar<'de, D: Deserializer<'de>>(
         deserializer: D,
     ) -> Result<<Self::PublicKey as Group>::Scalar, D::Error> {
+        #[cfg(feature = "blst")]
+        if deserializer.is_human_readable() {
+            return deserialize_hex_str(deserializer, 32);
+        }
         <Scalar as Deserialize<'de>>::deserialize(deserializer)
     }
 
@@ -87,12 +91,20 @@ impl BlsSerde for Bls12381G1Impl {
     fn deserialize_signature<'de, D: Deserializer<'de>>(
         deserializer: D,
     ) -> Result<Self::Signature, D::Error> {
+        #[cfg(feature = "blst")]
+        if deserializer.is_human_readable() {
+            return deserialize_hex_str(deserializer, 48);
+        }
         Self::Signature::deserialize(deserializer)
     }
 
     fn deserialize_public_key<'de, D: Deserializer<'de>>(
         deserializer: D,
     ) -> Result<Self::PublicKey, D::Error> {
+        #[cfg(feature = "blst")]
+        if deserializer.is_human_readable() {
+            return deserialize_hex_str(deserializer, 96);
+        }
         Self::PublicKey::deserialize(deserializer)
     }
 
